@@ -663,6 +663,10 @@ func (p *Process) handleOutput(pipe io.ReadCloser, output string, handler func(m
 	for {
 		line, err := reader.ReadString('\n')
 		if err != nil {
+			if line != "" {
+				// the last line has no trailing newline: it is output like any other
+				p.handleOutputLine(line, handler)
+			}
 			if err == io.EOF {
 				break
 			}
@@ -676,14 +680,18 @@ func (p *Process) handleOutput(pipe io.ReadCloser, output string, handler func(m
 				Msgf("error reading from %s", output)
 			break
 		}
-		if p.procConf.ReadyLogLine != "" && strings.Contains(line, p.procConf.ReadyLogLine) &&
-			p.compareAndSetHealth(types.ProcessHealthUnknown, types.ProcessHealthReady) {
-			p.readyLogCancelFn(nil)
-		}
-		p.checkElevatedProcOutput(line)
-		handler(strings.TrimSuffix(line, "\n"))
+		p.handleOutputLine(line, handler)
 	}
 	close(done)
+}
+
+func (p *Process) handleOutputLine(line string, handler func(message string)) {
+	if p.procConf.ReadyLogLine != "" && strings.Contains(line, p.procConf.ReadyLogLine) &&
+		p.compareAndSetHealth(types.ProcessHealthUnknown, types.ProcessHealthReady) {
+		p.readyLogCancelFn(nil)
+	}
+	p.checkElevatedProcOutput(line)
+	handler(strings.TrimSuffix(line, "\n"))
 }
 
 func (p *Process) checkElevatedProcOutput(line string) {
